@@ -608,6 +608,45 @@ func genKnownShapes(r *rand.Rand, emit func(core.Case)) {
 			emit(core.Case{Kind: "shape-lying+silent-witness", Ops: ops})
 		}
 	}
+	{ // forged primary + accomplice; a decoy witness holds the honest target block but cannot back it,
+		// an honest full witness can: every arrival order must end in the attack error
+		g := newGen(r)
+		c := g.honestChain(4, 1, 0, 0)
+		forked := g.fork(c, 1, 0)
+		primary := g.prov(1, blocksOf(forked, 1, 4), "")
+		decoy := g.prov(1, blocksOf(c.blk, 4, 4), "")
+		honest := g.prov(1, blocksOf(c.blk, 1, 4), "")
+		accomplice := g.prov(1, blocksOf(forked, 1, 4), "")
+		ws := []int{decoy, honest, accomplice}
+		for _, pm := range perms(3) {
+			ord := []int{primary, ws[pm[0]], ws[pm[1]], ws[pm[2]]}
+			ops := append([]string{}, g.ops...)
+			ops = append(ops, fmt.Sprintf("new chain=1 period=1000000000 h=1 hash=%d seq=0 num=1 den=3 drift=2 prune=0 primary=%d wit=%s order=%s",
+				c.blk[1], primary, intsStr(ws), intsStr(ord)))
+			ops = append(ops, fmt.Sprintf("verify h=4 now=%d order=%s", c.t[4]+100, intsStr(ord)))
+			emit(core.Case{Kind: "shape-decoy+honest+accomplice-witness", Ops: ops})
+		}
+	}
+	{ // trust level above 2/3, no churn, header signed by more than 2/3 but not more than the level,
+		// no adjacent path on offer
+		g := newGen(r)
+		var set [][2]int
+		for id := 0; id < 10; id++ {
+			set = append(set, [2]int{id, 1})
+		}
+		v := g.vs(set)
+		b1 := g.blk(spec{chain: 1, h: 1, t: 1000, vals: v, next: v, basic: 1, commit: 1, sign: []int{0, 1, 2, 3, 4, 5, 6, 7, 8, 9}})
+		b9 := g.blk(spec{chain: 1, h: 9, t: 9000, vals: v, next: v, basic: 1, commit: 1, sign: []int{0, 1, 2, 3, 4, 5, 6}})
+		primary := g.prov(1, []int{b1, b9}, "")
+		w := g.prov(1, []int{b1, b9}, "")
+		for _, lv := range [][2]int{{9, 10}, {3, 4}, {7, 10}, {2, 3}} {
+			ops := append([]string{}, g.ops...)
+			ops = append(ops, fmt.Sprintf("new chain=1 period=1000000000 h=1 hash=%d seq=0 num=%d den=%d drift=2 prune=0 primary=%d wit=%d order=%d,%d",
+				b1, lv[0], lv[1], primary, w, primary, w))
+			ops = append(ops, fmt.Sprintf("verify h=9 now=9100 order=%d,%d", primary, w))
+			emit(core.Case{Kind: "shape-signed-between-two-thirds-and-trust-level", Ops: ops})
+		}
+	}
 	{ // primary answers a height below the trusted range inconsistently (backwards verification):
 		// first a forged, unsigned, unlinked block, afterwards the genuine one
 		g := newGen(r)
